@@ -657,10 +657,29 @@ func (w *world) probe(h histT, vers []*version) {
 			for id, x := range r.Results {
 				pres[id] = x.(*ecdsa.PreSignature)
 			}
+			presBefore := map[party.ID]string{}
+			for id, p := range pres {
+				presBefore[id] = protos.Canon(p)
+			}
 			r2, err := protos.Run(protos.CmpPresignOnline(mat, pres, S, msg, []byte("on")), protos.RunOpts{Seed: w.seed + "/online/" + w.hist, Sched: sim.NewRng(uint64(len(w.hist)) * 37)})
 			w.stats["sessions"]++
+			for id, p := range pres {
+				if protos.Canon(p) != presBefore[id] {
+					w.violate("C01", "key-material-changed", fmt.Sprintf("cmp online signing changed the presignature object of party %q that it was given", id))
+				}
+			}
 			if err != nil {
 				return nil, err.Error()
+			}
+			if r2.AllDone() {
+				// the online step is retried for the same digest with the same presignature objects (a first attempt that
+				// was started and given up, say): it is this second all-honest session that is judged below
+				r3, err := protos.Run(protos.CmpPresignOnline(mat, pres, S, msg, []byte("on-retry")), protos.RunOpts{Seed: w.seed + "/online-retry/" + w.hist, Sched: sim.NewRng(uint64(len(w.hist)) * 47)})
+				w.stats["sessions"]++
+				if err != nil {
+					return nil, err.Error()
+				}
+				return r3.Status, ""
 			}
 			return r2.Status, ""
 		}
